@@ -58,6 +58,7 @@ type c16Gen struct {
 	// markers: this grammar gets state markers and only end-of-rule actions (the compiler
 	// rejects mid-rule actions in rules with state markers)
 	markers bool
+	plain   map[*egPart]bool
 }
 
 // refsFor draws references for a command that sees `visible` by name (entity indices) and all
@@ -135,7 +136,9 @@ func (e *c16Gen) scope(a *egAlt, top bool) {
 				local = append(local, seen)
 				seen++
 			case "list":
-				e.scope(p.Alts[0], false)
+				if !e.plain[p] { // twin lists stay free of element actions (they must be equal)
+					e.scope(p.Alts[0], false)
+				}
 				local = append(local, seen)
 				seen++
 			case "opt", "grp":
@@ -170,7 +173,39 @@ func c16GenCase(t *rapid.T) c16Case {
 		Seed:  rapid.IntRange(0, 1<<30).Draw(t, "seed"),
 	}
 	c.G.Inputs = c.G.Inputs[:1]
-	e := &c16Gen{t: t, c: &c, markers: rapid.IntRange(0, 3).Draw(t, "markers") == 0}
+	e := &c16Gen{t: t, c: &c, markers: rapid.IntRange(0, 3).Draw(t, "markers") == 0, plain: map[*egPart]bool{}}
+	// The same list of plain terminals in two rules: Textmapper extracts one nonterminal for both
+	// uses; references to the second use have to work like references to the first.
+	if rapid.IntRange(0, 2).Draw(t, "twinList") == 0 {
+		var lists []*egPart
+		var owner []int
+		for i, nt := range c.G.NTs {
+			for _, a := range nt.Alts {
+				for _, p := range a.Parts {
+					plain := p.K == "list"
+					if plain {
+						for _, ep := range p.Alts[0].Parts {
+							plain = plain && ep.K == "t"
+						}
+					}
+					if plain {
+						lists = append(lists, p)
+						owner = append(owner, i)
+					}
+				}
+			}
+		}
+		if len(lists) > 0 {
+			k := rapid.IntRange(0, len(lists)-1).Draw(t, "twinOf")
+			var cp egPart
+			js, _ := json.Marshal(lists[k])
+			json.Unmarshal(js, &cp)
+			nt := c.G.NTs[rapid.IntRange(0, owner[k]).Draw(t, "twinNT")]
+			a := nt.Alts[rapid.IntRange(0, len(nt.Alts)-1).Draw(t, "twinAlt")]
+			a.Parts = append(a.Parts, &egPart{K: "t", Sym: rapid.IntRange(1, c.G.T-1).Draw(t, "twinGuard")}, &cp)
+			e.plain[lists[k]], e.plain[&cp] = true, true
+		}
+	}
 	for _, nt := range c.G.NTs {
 		nt.Node = ""
 		for _, a := range nt.Alts {
